@@ -44,3 +44,19 @@ Print Assumptions C11_unprefixed.
 
 Example C11_nonvacuous : pvalQ (MkP 10 3) == 1000 /\ pcanon (MkP 10 3).
 Proof. split; [vm_compute; reflexivity|split; simpl; intros; congruence]. Qed.
+
+(* prefixes of different bases, over the reals: the float exponent the code computes denotes exactly the
+   product / quotient / power of the two prefix values (the 1e-9 clause is then rounding only) *)
+From Coq Require Import Reals.
+From Measured Require Import Proofs.MixedBaseFacts.
+Theorem C11_mixed_base_mul : forall b1 e1 b2 e2 : R, (0 < b1 -> b1 <> 1 -> 0 < b2 ->
+  Rpower b1 (mixed_mul_exponent b1 e1 b2 e2) = Rpower b1 e1 * Rpower b2 e2)%R.
+Proof. exact mixed_mul_exact. Qed.
+Print Assumptions C11_mixed_base_mul.
+Theorem C11_mixed_base_div : forall b1 e1 b2 e2 : R, (0 < b1 -> b1 <> 1 -> 0 < b2 ->
+  Rpower b1 (mixed_div_exponent b1 e1 b2 e2) = Rpower b1 e1 / Rpower b2 e2)%R.
+Proof. exact mixed_div_exact. Qed.
+Print Assumptions C11_mixed_base_div.
+Theorem C11_mixed_base_pow : forall b e n : R, (0 < b -> Rpower (Rpower b e) n = Rpower b (e * n))%R.
+Proof. exact mixed_pow_exact. Qed.
+Print Assumptions C11_mixed_base_pow.
